@@ -172,6 +172,18 @@ pub fn gen(rng: &mut Rng, tier: Tier, out: &mut Vec<String>) {
             out.push(format!("poly_ops c {} {} {} {} {}", wr_vec(&p), wr_vec(&q), Cmplx::gen(rng, 10, 0).wr(), Cmplx::gen(rng, 10, 0).wr(), n));
         }
     } } }
+
+    // HIGHER DEGREES (lengths 11 .. 48)
+    for i in 0..(if tier == Tier::Quick { 12 } else { 300 }) {
+        let (lp, lq) = (big(rng, 48), if rng.chance(50) { big(rng, 33) } else { rng.below(12) });
+        let n = rng.below(lp + 3);
+        if i % 3 == 0 { let (p, q) = (gen_poly::<Q>(rng, lp.min(20), 0, true), gen_poly::<Q>(rng, lq.min(12), 0, true));
+            out.push(format!("poly_ops q {} {} {} {} {}", wr_vec(&p), wr_vec(&q), Q::int(rng.range(-2, 2) as i128).wr(), Q::int(rng.range(-1, 1) as i128).wr(), n.min(22))); }
+        let (p, q) = (gen_poly::<f64>(rng, lp, 0, true), gen_poly::<f64>(rng, lq, 0, true));
+        out.push(format!("poly_ops f {} {} {} {} {}", wr_vec(&p), wr_vec(&q), (rng.range(-4, 4) as f64 / 4.0).wr(), (rng.range(-4, 4) as f64 / 4.0).wr(), n));
+        if i % 2 == 0 { let (p, q) = (gen_poly::<Cmplx>(rng, lp.min(33), 0, true), gen_poly::<Cmplx>(rng, lq.min(20), 0, true));
+            out.push(format!("poly_ops c {} {} {} {} {}", wr_vec(&p), wr_vec(&q), Cmplx::new(0.5, -0.25).wr(), Cmplx::new(0.0, 1.0).wr(), n)); }
+    }
 }
 
 pub fn gen_c12(rng: &mut Rng, tier: Tier, out: &mut Vec<String>) {
@@ -186,4 +198,15 @@ pub fn gen_c12(rng: &mut Rng, tier: Tier, out: &mut Vec<String>) {
         out.push(format!("polydiv c {} {}", wr_vec(&gen_poly::<Cmplx>(rng, lu, r % 3, true)), wr_vec(&gen_poly::<Cmplx>(rng, lv, r % 3, lead))));
     } } }
     for lv in 0..5usize { out.push(format!("polydiv q {} {}", wr_vec(&gen_poly::<Q>(rng, 4, 0, true)), wr_vec(&vec![Q::int(0); lv]))); out.push(format!("polydiv f {} {}", wr_vec(&gen_poly::<f64>(rng, 4, 0, true)), wr_vec(&vec![0.0f64; lv]))); }
+
+    // HIGHER DEGREES
+    for i in 0..(if tier == Tier::Quick { 12 } else { 300 }) {
+        let lu = big(rng, 48); let lv = if rng.chance(40) { big(rng, lu.max(11)) } else { 1 + rng.below(8) };
+        if i % 2 == 0 { let mut v = gen_poly::<Q>(rng, lv.min(9), 0, true); if let Some(l) = v.last_mut() { *l = Q::int(if rng.chance(50) { 1 } else { -1 }); }   // monic divisor: the quotient stays integral
+            let u: Vec<Q> = (0..lu.min(24)).map(|_| Q::int(rng.range(-3, 3) as i128)).collect();
+            out.push(format!("polydiv q {} {}", wr_vec(&u), wr_vec(&v))); }
+        out.push(format!("polydiv f {} {}", wr_vec(&gen_poly::<f64>(rng, lu, 0, true)), wr_vec(&gen_poly::<f64>(rng, lv, 0, true))));
+        out.push(format!("polydiv f {} {}", wr_vec(&gen_poly::<f64>(rng, lu, 1, true)), wr_vec(&gen_poly::<f64>(rng, lv.min(12), 1, true))));
+        if i % 3 == 0 { out.push(format!("polydiv c {} {}", wr_vec(&gen_poly::<Cmplx>(rng, lu.min(33), 0, true)), wr_vec(&gen_poly::<Cmplx>(rng, lv.min(10), 0, true)))); }
+    }
 }
